@@ -175,6 +175,15 @@ def run(prop, tier, seed, known):
             if len(set(fa)) > 1 and len(fa) > len(set(fa)):
                 if not (close(p['pairwise'], (1.0, 1.0, 1.0)) and close(p['rand'], 1.0) and close(p['ari'], 1.0) and close(p['v'], (1.0, 1.0, 1.0))):
                     fails.append('identical annotations do not get the perfect score: %s' % (p,))
+            # C08: labels that differ only by surrounding blanks are different labels: renaming them to fresh names changes nothing
+            if len(ri) >= 2:
+                rl5 = [('a' if k_ % 2 == 0 else 'a ') if l.lower() == 'a' else l for k_, l in enumerate(rl)]
+                fresh = {}
+                rl6 = [fresh.setdefault(l.lower(), 'f%d' % len(fresh)) for l in rl5]
+                q0 = metrics(ri, rl5, ei, el, size, beta)
+                q1 = metrics(ri, rl6, ei, el, size, beta)
+                if not all(close(q0[k], q1[k]) for k in q0):
+                    fails.append('scores change under label renaming when two labels differ only by a trailing blank: %s -> %s: %s vs %s' % (rl5, rl6, q0, q1))
             # C08: renaming the labels of ONE side of two identical annotations (also when there is a single label)
             one = rng.random() < 0.4
             rl4 = [rl[0]] * len(rl) if one else rl
